@@ -422,7 +422,7 @@ def run(ctx):
     pt = install(ctx, st)
     ctx.enable_disturb(pt, 0.03)     # other legitimate library calls interleaved between cases (vf.gen.disturb)
     g = cfg()
-    for i in range(ctx.n(24000, 800000)):
+    for i in range(ctx.n(48000, 800000)):
         p = gp.gen_pep(ctx.rng, g)
         if ctx.rng.random() < 0.3:
             # pre-existing modifications drawn from the pool the rules offer: an offered group may equal what a residue
